@@ -215,10 +215,32 @@ def check_table(rep, prog):
                   found='public %s (mro %s)' % (pub.name, [c.name for c in pub.mro()][:4]), scenario=a)
         rep.check(not pub.find_attr('__privfields__') or ast.literal_eval(pub.find_attr('__privfields__')) == (), 'C07.4', pub.name,
                   '%s has no private fields' % pub.name, 'public key material declares no secret fields', where=pub.where, scenario=a)
-    # the selector: public iff PubKey and not PrivKey; fallback classes follow the same split
-    src = ast.unparse(f.node)
-    rep.check('(self.public, self.pkalg)' in src and 'OpaquePubKey if self.public else OpaquePrivKey' in src, 'C07.4', 'PubKeyV4.pkalg_int',
-              'selector (self.public, self.pkalg)', 'the class is selected by the packet\'s own public/private kind', where=f.where)
+    # the selector: the table is asked with the packet's own kind; fallback classes follow the same split
+    me = f.params[0]
+    for public in (True, False):
+        sc = Scenario(bind={'%s.public' % me: Const(public)}, inline=noinline)
+        looked, classes = set(), set()
+        for s in Interp(prog, sc).run(f):
+            dicts = sorted((e[2] for e in s.events if e[0] == 'assign' and e[2].startswith('{(')), key=len, reverse=True)
+            vals = [v for p, v, l, _ in s.stores if p == '%s.keymaterial' % me]
+            if not vals:
+                raise AnalysisError('PubKeyV4.pkalg_int: a path stores no key material')
+            for c in s.calls:
+                if c[0].endswith('.get') and any(c[0] == d + '.get' for d in dicts) and c[1]:
+                    looked.add(c[1][0])
+            for v in vals:
+                for d in dicts:
+                    v = v.replace(d, 'TABLE')
+                looked.update(m.group(1) for m in re.finditer(r'TABLE\[(\([^\]]*\))\]', v))
+                classes.update(n for n in re.findall(r'[A-Za-z_][A-Za-z_0-9]*', v) if n in fields.classes)
+        want = ['(%r, %s.pkalg)' % (public, me), '(%r, %s._pkalg)' % (public, me)]
+        rep.check(bool(looked) and all(k in want for k in looked), 'C07.4', 'PubKeyV4.pkalg_int', 'selector %s' % sorted(looked),
+                  'the class is selected by the packet\'s own public/private kind', where=f.where, expected='(%s.public, %s.pkalg)' % (me, me),
+                  found=sorted(looked), scenario='public=%s' % public)
+        okc = bool(classes) and all((privbase in fields.classes[c].mro()) != public for c in classes)
+        rep.check(okc, 'C07.4', 'PubKeyV4.pkalg_int', 'fallback %s' % sorted(classes),
+                  'unknown algorithms get opaque material of the packet\'s own kind', where=f.where,
+                  expected='OpaquePubKey' if public else 'OpaquePrivKey', found=sorted(classes), scenario='public=%s' % public)
     pub = prog.method('pgpy.packet.packets', 'PubKeyV4', 'public')
     _public_predicate(rep, prog, pub, 'PubKeyV4.public', 'self', 'PubKey', 'PrivKey', 'C07.4')
     # packet class hierarchy: secret packet classes carry the Private marker, public ones do not
@@ -249,9 +271,10 @@ def check_export(rep, prog):
                     flat.append(it)
         walk(its)
         srcs = sorted(set(expand_bound(s, it[1]) for it in flat if it[0] == 'SYM'))
-        allowed = {'self._key.__bytearray__()', 'self._signatures[*].__bytearray__()', 'self._uids[*]._uid.__bytearray__()',
-                   'self._uids[*]._signatures[*].__bytearray__()', 'self._children.values()[*].__bytearray__()',
-                   'self.subkeys.values()[*].__bytearray__()'}
+        allowed = {t.replace('self', f.params[0], 1) for t in (
+            'self._key.__bytearray__()', 'self._signatures[*].__bytearray__()', 'self._uids[*]._uid.__bytearray__()',
+            'self._uids[*]._signatures[*].__bytearray__()', 'self._children.values()[*].__bytearray__()',
+            'self.subkeys.values()[*].__bytearray__()')}
         rep.check(set(srcs) <= allowed and all(it[0] == 'SYM' for it in flat), 'C07.6', 'PGPKey.__bytearray__', 'emits %s' % srcs,
                   'a key export consists of the key packet, signatures, user id/attribute packets and subkeys only', where=f.where,
                   expected=sorted(allowed), found=srcs)
@@ -260,22 +283,69 @@ def check_export(rep, prog):
     for (a, b), label in want.items():
         def oracle(t, _a=a, _b=b):
             t = t.replace(' ', '')
-            if t == 'isinstance(self._key,Public)':
+            if t == 'isinstance(%s._key,Public)' % m.params[0]:
                 return _a
-            if t == 'isinstance(self._key,Private)':
+            if t == 'isinstance(%s._key,Private)' % m.params[0]:
                 return _b
             return None
         for s_ in Interp(prog, Scenario(inline=noinline, oracle=oracle)).run(m):
             r = render(s_.ret)
-            rep.check(r == "'{:s} KEY BLOCK'.format(%r)" % label, 'C07.6', 'PGPKey.magic', 'Public=%s Private=%s -> %s' % (a, b, r),
+            folded = fold_str(r)
+            if folded is None:
+                raise AnalysisError('PGPKey.magic: label %s is not a closed string expression' % r)
+            rep.check(folded == ('%s KEY BLOCK' % label), 'C07.6', 'PGPKey.magic', 'Public=%s Private=%s -> %s' % (a, b, folded),
                       'the block is labelled PUBLIC exactly for public-only key packets and PRIVATE for secret ones', where=m.where,
                       expected='%s KEY BLOCK' % label, found=r, scenario='Public=%s, Private=%s' % (a, b))
     ip = prog.method('pgpy.pgp', 'PGPKey', 'is_public')
     _public_predicate(rep, prog, ip, 'PGPKey.is_public', 'self._key', 'Public', 'Private', 'C07.6')
 
 
+def fold_str(text):
+    """Value of a closed string expression (constants joined by +, %, str.format, str.join; nothing else), or None.
+    Checker-side constant folding of the rendered return value: the label is compared as a string, not as source text."""
+    try:
+        tree = ast.parse(text, mode='eval').body
+    except SyntaxError:
+        return None
+
+    def ev(n):
+        if isinstance(n, ast.Constant) and isinstance(n.value, (str, int)):
+            return n.value
+        if isinstance(n, (ast.Tuple, ast.List)):
+            xs = [ev(e) for e in n.elts]
+            return None if any(x is None for x in xs) else tuple(xs)
+        if isinstance(n, ast.BinOp) and isinstance(n.op, (ast.Add, ast.Mod)):
+            l, r = ev(n.left), ev(n.right)
+            if not isinstance(l, str) or r is None:
+                return None
+            try:
+                return l + r if isinstance(n.op, ast.Add) else l % r
+            except (TypeError, ValueError):
+                return None
+        if isinstance(n, ast.Call) and isinstance(n.func, ast.Attribute) and n.func.attr in ('format', 'join', 'strip', 'lstrip', 'upper'):
+            base = ev(n.func.value)
+            args = [ev(a) for a in n.args]
+            kw = {k.arg: ev(k.value) for k in n.keywords}
+            if not isinstance(base, str) or any(a is None for a in args) or None in kw or any(v is None for v in kw.values()):
+                return None
+            try:
+                if n.func.attr == 'format':
+                    return base.format(*args, **kw)
+                if n.func.attr == 'join' and len(args) == 1 and isinstance(args[0], tuple):
+                    return base.join(args[0])
+                if n.func.attr in ('strip', 'lstrip', 'upper') and not args:
+                    return getattr(base, n.func.attr)()
+            except (TypeError, ValueError, IndexError, KeyError):
+                return None
+        return None
+    v = ev(tree)
+    return v if isinstance(v, str) else None
+
+
 def _public_predicate(rep, prog, fn, construct, obj, pubname, privname, rid):
     """The predicate must be true exactly for (is-a public packet, not a secret packet)."""
+    if obj.split('.')[0] == 'self':
+        obj = fn.params[0] + obj[4:]
     for a in (True, False):
         for b in (True, False):
             def oracle(t, _a=a, _b=b):
